@@ -212,6 +212,8 @@ def r3_reader(ctx):
         for a, val in conds:
             if a[0] == 'discr' and a[1][0] == 'call' and a[1][1].endswith('::nth'):
                 promo = val
+            if a[0] == 'haschar' and a[2] == 4:          # "the text has a fifth character" (chars().nth(4) / four next() calls)
+                promo = 1 if is_true(val) else 0
             if a[0] == 'discr' and a[1][0] == 'fld' and a[1][2] == '0' and a[1][1][0] == 'fld' and a[1][1][2] == 'Some.0' \
                     and a[1][1][1][0] == 'call' and a[1][1][1][1] == BOARD + '::get':
                 piece = val
